@@ -12,6 +12,12 @@
 // H6 (spans sum to ranks at every level, backward links, tail, length, dict in step) is evaluated and
 // the whole content is read back through the public API.
 //
+// The model that answers the protocol lines is the STRUCTURAL skip list: `zadd`/`linsert` lines carry the
+// tower height of the node the real code inserted (read back from the real list through the probe's
+// shape dump; 0 = no node inserted), and after every mutating call the answer carries ` # <shape>`
+// (VerifShape: level, length, header spans, per node score/height: spans), so the structure itself —
+// every tower and every span — is compared with the model after every mutation.
+//
 // Scores are int64 in the code; members are a small int type implementing collections.Comparable.
 // Tower heights come from math/rand's global source: it is re-seeded per case from the case, so a
 // replay rebuilds the same towers.
@@ -176,6 +182,30 @@ func elesOf(ps []pair) []int {
 
 type failure struct{ key, what string }
 
+// heightAt reads the tower height of the node at 0-based position pos back from the probe's shape dump
+// ("level=L len=N | header spans | score/h: spans | ..."); 0 if there is no such node.
+func heightAt(shape string, pos int) int {
+	segs := strings.Split(shape, " | ")
+	if pos < 0 || pos+2 >= len(segs) {
+		return 0
+	}
+	seg := segs[pos+2]
+	a, b := strings.IndexByte(seg, '/'), strings.IndexByte(seg, ':')
+	if a < 0 || b < a {
+		return 0
+	}
+	h, _ := strconv.Atoi(seg[a+1 : b])
+	return h
+}
+
+func mutating(opName string) bool {
+	switch opName {
+	case "zadd", "zrem", "zrrs", "zrrr", "linsert", "ldelete", "ldrs", "ldrr":
+		return true
+	}
+	return false
+}
+
 // probeLog collects invariant-probe violations (hook H6) of the case being executed; probeFatal makes them
 // ordinary failures (only used to shrink a case down to its first probe violation).
 var (
@@ -203,10 +233,11 @@ func execZ(c tcase, rec *hxlib.Run) (fails []failure, nontrivial bool) {
 	zs := zset.NewSortedSet()
 	ref := map[int]int64{}
 	if rec != nil {
-		rec.Op("znew", "ok")
+		rec.Op(fmt.Sprintf("znew %d", zset.ZSKIPLIST_MAXLEVEL), "ok")
 	}
 	for i, o := range c.Ops {
 		var got, want string
+		height := 0 // tower height of the node this call inserted (read back from the real list), 0 = none
 		rk := ranking(ref)
 		hasTie := false
 		for j := 1; j < len(rk); j++ {
@@ -220,8 +251,12 @@ func execZ(c tcase, rec *hxlib.Run) (fails []failure, nontrivial bool) {
 			case "zlen":
 				got, want = strconv.Itoa(zs.Len()), strconv.Itoa(len(ref))
 			case "zadd":
+				old, had := ref[o.E]
 				got, want = strconv.FormatBool(zs.Add(mem(o.E), o.A)), "true"
 				ref[o.E] = o.A
+				if !had || old != o.A {
+					height = heightAt(zs.VerifList().VerifShape(), zs.GetRank(mem(o.E), false))
+				}
 			case "zrem":
 				got = strconv.FormatBool(zs.Remove(mem(o.E)))
 				_, ok := ref[o.E]
@@ -331,7 +366,14 @@ func execZ(c tcase, rec *hxlib.Run) (fails []failure, nontrivial bool) {
 			fail("panic:"+o.Op, "op %d %s panicked: %s", i, o.line(), pn)
 		}
 		if rec != nil {
-			rec.Op(o.line(), got)
+			line, ans := o.line(), got
+			if o.Op == "zadd" {
+				line = fmt.Sprintf("%s %d", line, height)
+			}
+			if mutating(o.Op) && pn == "" {
+				ans += " # " + zs.VerifList().VerifShape()
+			}
+			rec.Op(line, ans)
 			rec.Count("op:" + o.Op)
 		}
 		if pn != "" {
@@ -402,11 +444,12 @@ func execL(c tcase, rec *hxlib.Run) (fails []failure, nontrivial bool) {
 		})
 	}
 	if rec != nil {
-		rec.Op("lnew", "ok")
+		rec.Op(fmt.Sprintf("lnew %d", zset.ZSKIPLIST_MAXLEVEL), "ok")
 	}
 	node := func(p pair) string { return fmt.Sprintf("%d:%d", p.s, p.e) }
 	for i, o := range c.Ops {
 		var got, want string
+		height := 0 // tower height of the node this call inserted (read back from the real list)
 		// calling contracts, judged on the reference content (a shrunk or hand-written case that breaks
 		// them is not a case: stop without a verdict)
 		for _, p := range content {
@@ -457,7 +500,13 @@ func execL(c tcase, rec *hxlib.Run) (fails []failure, nontrivial bool) {
 				}
 				want = dash(wf) + " | " + dash(wb)
 			case "linsert":
-				got = showNode(zsl.Insert(o.A, mem(o.E)))
+				nn := zsl.Insert(o.A, mem(o.E))
+				got = showNode(nn)
+				pos := 0
+				for x := zsl.HeadNode(); x != nil && x != nn && pos <= len(content)+1; x = x.Next() {
+					pos++
+				}
+				height = heightAt(zsl.VerifShape(), pos)
 				want = node(pair{o.E, o.A})
 				content = append(content, pair{o.E, o.A})
 				resort()
@@ -553,7 +602,14 @@ func execL(c tcase, rec *hxlib.Run) (fails []failure, nontrivial bool) {
 			fail("L:panic:"+o.Op, "op %d %s panicked: %s", i, o.line(), pn)
 		}
 		if rec != nil {
-			rec.Op(o.line(), got)
+			line, ans := o.line(), got
+			if o.Op == "linsert" {
+				line = fmt.Sprintf("%s %d", line, height)
+			}
+			if mutating(o.Op) && pn == "" {
+				ans += " # " + zsl.VerifShape()
+			}
+			rec.Op(line, ans)
 			rec.Count("op:" + o.Op)
 		}
 		if pn != "" {
